@@ -34,9 +34,10 @@ func withAnchors(c *Ctx, f func(a *serverAnchors)) {
 
 func init() {
 	register("C01",
-		"Decides, on every control-flow path, the mechanism that makes one-fetch-per-unknown-key possible: the lookup's transition relation over four abstract entry states (only the unknown state becomes fetching, exactly the requests that find it fetching are registered as waiters and get the registered channel, a hit returns the stored response), the locked wrapper (lookup under the write lock; a woken waiter re-evaluates under the lock), get-or-create of the entry in one shard critical section, the shard function, the cache middleware forwarding only non-hit states exactly once, a persisted record being loaded inside the locked lookup only (never applied over a state another request has already advanced), a reload keeping every surviving cache's entries (an in-flight fetch stays the key's only fetch), a fetcher whose downstream call succeeded publishing the response as cacheable unless no lifetime or no response was recorded, and the stored expiry being the clock plus a positive lifetime (an entry stored already expired makes every waiter the next fetcher). The schedule quantifier itself (that the Go runtime, given these shapes, yields one fetch on every interleaving) is not decided.",
+		"Decides, on every control-flow path, the mechanism that makes one-fetch-per-unknown-key possible: the lookup's transition relation over four abstract entry states (only the unknown state becomes fetching, exactly the requests that find it fetching are registered as waiters and get the registered channel, a hit returns the stored response), the locked wrapper (lookup under the write lock; a woken waiter re-evaluates under the lock; nothing but that wrapper calls the lookup step), get-or-create of the entry in one shard critical section, the shard function, the cache middleware forwarding only non-hit states exactly once, a persisted record being loaded inside the locked lookup only (never applied over a state another request has already advanced), a reload keeping every surviving cache's entries (an in-flight fetch stays the key's only fetch), a fetcher whose downstream call succeeded publishing the response as cacheable unless no lifetime or no response was recorded, and the stored expiry being the clock plus a positive lifetime (an entry stored already expired makes every waiter the next fetcher). The schedule quantifier itself (that the Go runtime, given these shapes, yields one fetch on every interleaving) is not decided.",
 		nil, func(c *Ctx) {
 			withAnchors(c, func(a *serverAnchors) {
+				rulePassMethods(c, a)
 				ruleResetPrunes(c, "cache")
 				ruleLookup(c, a.cacheA, set("lookup-shape", "state-determined", "no-exit-unknown", "fetching-only-from-unknown", "registration", "returned-status", "hit-data", "invariant-waiters", "no-waiter-dropped", "load-on-first-lookup", "load-only-when-unknown"))
 				ruleKeepCache(c)
@@ -70,11 +71,12 @@ func init() {
 			})
 		})
 	register("C03",
-		"Decides the gating structure for all header sets and methods: a non-zero lifetime is returned only after the Set-Cookie presence test, the Cache-Control emptiness test and the case-insensitive no-cache/no-store/private test (over all Cache-Control lines) have failed; the lifetime is the captured s-maxage, else max-age, minus a positive Age; only these three headers are consulted, and the location's configured response headers are only ever added next to the upstream's values in the header the classifier reads (never set over or deleted from it); storing is gated by fetching state, lifetime > 0, a non-nil response and a successful downstream handler; non-GET/HEAD requests bypass the cache and every request is forwarded at most once; the status label is the lookup's status. Numeric semantics of strconv.Atoi and directive tokenisation are not decided.",
+		"Decides the gating structure for all header sets and methods: a non-zero lifetime is returned only after the Set-Cookie presence test, the Cache-Control emptiness test and the case-insensitive no-cache/no-store/private test (over all Cache-Control lines) have failed; the lifetime is the captured s-maxage, else max-age, minus a positive Age; only these three headers are consulted, and the location's configured response headers are only ever added next to the upstream's values in the header the classifier reads (never set over or deleted from it); storing is gated by fetching state, lifetime > 0, a non-nil response and a successful downstream handler; non-GET/HEAD requests bypass the cache, every request method is routed to the middleware chain and every request is forwarded at most once; the status label is the lookup's status. Numeric semantics of strconv.Atoi and directive tokenisation are not decided.",
 		nil, func(c *Ctx) {
 			withAnchors(c, func(a *serverAnchors) {
 				ruleMaxAge(c, a, nil)
 				rulePassMethods(c, a)
+				ruleAllMethodsRouted(c)
 				ruleContextKeys(c, a)
 				ruleResponder(c, a)
 				ruleProxyHandlerDirect(c)
@@ -124,8 +126,9 @@ func init() {
 			withAnchors(c, func(a *serverAnchors) {
 				ruleLookup(c, a.cacheA, set("state-determined", "load-on-first-lookup", "load-only-when-unknown", "expiry-applied", "invariant-expiry", "hit-data"))
 				ruleStoreLoadAtomic(c, a.cacheA)
-				ruleCompletionPaths(c, a.cacheA, set("persist-final"))
+				ruleCompletionPaths(c, a.cacheA, set("persist-final", "expiry-value", "stores-response"))
 				ruleSaveUnconditional(c, a.cacheA)
+				ruleBadgerCommits(c)
 				ruleWireConstants(c)
 				rulePublishedResponse(c, a)
 				ruleEntryWriters(c, a.cacheA)
@@ -145,11 +148,11 @@ func init() {
 			})
 		})
 	register("C10",
-		"Decides that store failures cannot reach clients or strand waiters: a failed, truncated or impossible record leaves the live entry untouched (all-or-nothing adoption) and the lookup continues as a miss; every completion path drains the waiters and sets the state whatever the store write returns; the fetcher's ticket is always discharged; whatever expiry a restored record carries goes through the same expiry test as any entry (no sign or value of it is exempt); the record decoders contain no panicking-by-contract call, explicit panic or unchecked data-sized allocation and every index / fixed-width read is provably inside the data (a panic under the entry lock would wedge the key); a purge deletes the persisted record while still holding the shard lock. Slow calls and flipped body bits are not decided.",
+		"Decides that store failures cannot reach clients or strand waiters: a failed, truncated or impossible record leaves the live entry untouched (all-or-nothing adoption) and the lookup continues as a miss; every completion path drains the waiters and sets the state whatever the store write returns; the fetcher's ticket is always discharged; whatever expiry a restored record carries goes through the same expiry test as any entry (no sign or value of it is exempt); the record decoders contain no panicking-by-contract call, explicit panic or unchecked data-sized allocation and every index / fixed-width read is provably inside the data (a panic under the entry lock would wedge the key); a purge deletes the persisted record while still holding the shard lock and never takes the entry lock; the lookup never writes to the store (memory hits do not wait for it). Slow calls and flipped body bits are not decided.",
 		nil, func(c *Ctx) {
 			withAnchors(c, func(a *serverAnchors) {
 				ruleStoreLoadAtomic(c, a.cacheA)
-				ruleLookup(c, a.cacheA, set("state-determined", "expiry-applied", "invariant-expiry", "invariant-waiters", "no-exit-unknown", "load-only-when-unknown"))
+				ruleLookup(c, a.cacheA, set("state-determined", "expiry-applied", "invariant-expiry", "invariant-waiters", "no-exit-unknown", "load-only-when-unknown", "lookup-no-store-write"))
 				ruleCompletionPaths(c, a.cacheA, set("completes-on-every-path"))
 				ruleCacheMiddleware(c, a, set("ticket-discharge"))
 				ruleLookupNilChecked(c)
@@ -191,6 +194,7 @@ func init() {
 		[]string{"groupcache/lru: MaxEntries == 0 means no limit; Add evicts the oldest entry beyond MaxEntries"}, func(c *Ctx) {
 			withAnchors(c, func(a *serverAnchors) {
 				ruleCapacity(c)
+				ruleKeepCache(c)
 				ruleLockset(c)
 				ruleResetPrunes(c, "cache")
 				ruleLocksNotCopied(c)
@@ -202,12 +206,13 @@ func init() {
 			})
 		})
 	register("C18",
-		"Decides that a purge removes the key from the shard the lookup consults (same shard function, whole key) on every path and deletes the persisted record whenever a store is configured; the unnamed form visits every cache and never stops early, the named form touches one; the package-level purge hands (cache name, key) unchanged to the one default registry; each back end deletes the record its Get and Set address; a purge writes no entry state and takes no entry lock, so it can neither block on nor strand an in-flight fetch; an entry enters a shard's LRU only from the function that has just constructed it, so a purged entry is never put back by its fetcher. The history clause about a purge racing a fetch that later re-persists is not decided.",
+		"Decides that a purge removes the key from the shard the lookup consults (same shard function, whole key) on every path and deletes the persisted record whenever a store is configured; the unnamed form visits every cache and never stops early, the named form touches one; the package-level purge hands (cache name, key) unchanged to the one default registry; each back end deletes the record its Get and Set address; a purge writes no entry state and takes no entry lock, so it can neither block on nor strand an in-flight fetch; an entry enters a shard's LRU only from the function that has just constructed it, so a purged entry is never put back by its fetcher; the badger back end's writes and deletes are committed before success is reported. The history clause about a purge racing a fetch that later re-persists is not decided.",
 		nil, func(c *Ctx) {
 			withAnchors(c, func(a *serverAnchors) {
 				rulePurge(c, a.cacheA)
 				rulePurgeAll(c)
 				ruleLRUAddFresh(c)
+				ruleBadgerCommits(c)
 				ruleStoreWriteOrdered(c)
 				ruleAdminPurge(c)
 				ruleStoreKeyAgreement(c)
@@ -233,7 +238,7 @@ func init() {
 				ruleDecodersReadAll(c)
 				rulePooledBytes(c)
 				ruleLZ4Bound(c)
-				ruleProxyMiddleware(c, a, set("response-built", "location-edits-order", "proxy-deadline"))
+				ruleProxyMiddleware(c, a, set("response-built", "location-edits-order", "proxy-deadline", "withheld-on-fetch", "restore"))
 				ruleCacheMiddleware(c, a, set("hit-serves-stored"))
 				rulePrecompress(c, a)
 				ruleTransportUnbounded(c)
@@ -282,7 +287,7 @@ func init() {
 			ruleDecoderBounds(c, map[string]bool{"compress": true})
 		})
 	register("C09",
-		"Decides writer/reader layout agreement for both record types (element kinds, widths, order and the field each element belongs to, every variable-length element preceded by its own length), that every read is bounded (fixed-width reads fail on short input, variable reads are checked against 0 and the remaining length), that no allocation in a decoder is sized by record data and no decoder calls a panicking-by-contract function (Must*) on record data, that every index and fixed-width byte-order read in a decoder is inside the data by the comparisons made before it, that the loader accepts every record the completions write (adoption depends only on status, expiry and the presence of a response, not on its content), that a record cut anywhere fails to decode (the tail is a checked read), that encoded records are freshly allocated, that integer writers and readers agree on width and byte order, that the persisted status numbers are the ones records on disk carry, that String() of a decoded status cannot index outside its table, and that decoding keeps no package-level state (the same record always decodes the same way). Exact value round-trip of contents (e.g. JSON re-encoding of non-UTF-8 header values) is value semantics of libraries and not decided.",
+		"Decides writer/reader layout agreement for both record types (element kinds, widths, order and the field each element belongs to, every variable-length element preceded by its own length), that every read is bounded (fixed-width reads fail on short input, variable reads are checked against 0 and the remaining length), that no allocation in a decoder is sized by record data and no decoder calls a panicking-by-contract function (Must*) on record data, that every index and fixed-width byte-order read in a decoder is inside the data by the comparisons made before it, that the loader accepts every record the completions write (adoption depends only on status, expiry and, for a hit, the presence of a response, not on its content; markers with and without a response are taken), that a record cut anywhere fails to decode (the tail is a checked read), that encoded records are freshly allocated, that integer writers and readers agree on width and byte order, that the persisted status numbers are the ones records on disk carry, that String() of a decoded status cannot index outside its table, and that decoding keeps no package-level state (the same record always decodes the same way). Exact value round-trip of contents (e.g. JSON re-encoding of non-UTF-8 header values) is value semantics of libraries and not decided.",
 		nil, func(c *Ctx) {
 			ruleLayout(c)
 			ruleWireConstants(c)
@@ -300,13 +305,14 @@ func init() {
 			ruleEmptyResponseSection(c)
 		})
 	register("C14",
-		"Decides that Match is exactly (no hosts or host listed) and (no prefixes or some prefix of the URI) and depends on nothing else; that the four specificity classes get strictly increasing, non-zero priorities in the order prefix+host < prefix < host < none; that the list is sorted ascending by that priority (comparator over the very slice being sorted) before it is published under the write lock, and is built from the new options alone (nothing kept from the list it replaces); that only an element of the sorted list whose name is one of the server's own names and which matches is returned, with the sorted list as the outer loop; that the proxy resolves with the request's Host and request URI and fails with a 5xx before any upstream contact when no location or upstream is found.",
+		"Decides that Match is exactly (no hosts or host listed) and (no prefixes or some prefix of the URI) and depends on nothing else; that the four specificity classes get strictly increasing, non-zero priorities in the order prefix+host < prefix < host < none; that the list is sorted ascending by that priority (comparator over the very slice being sorted) before it is published under the write lock, and is built from the new options alone (nothing kept from the list it replaces; hosts, prefixes and name are written by the converter only); that only an element of the sorted list whose name is one of the server's own names and which matches is returned, with the sorted list as the outer loop; that the proxy resolves with the request's Host and request URI and fails with a 5xx before any upstream contact when no location or upstream is found.",
 		nil, func(c *Ctx) {
 			withAnchors(c, func(a *serverAnchors) {
 				ruleMatch(c)
 				rulePriority(c)
 				ruleSortedPublish(c)
 				ruleLocationsFromOptions(c)
+				ruleMatchFieldsVerbatim(c)
 				ruleNamedOnly(c)
 				ruleForwarders(c, "location")
 				ruleErrorCodes(c)
@@ -314,7 +320,7 @@ func init() {
 			})
 		})
 	register("C15",
-		"Decides which request state the proxy middleware changes before the upstream call and that each change is undone on every exit after it: on a cold (fetching) request If-None-Match, If-Modified-Since, Range and If-Range are removed or known absent at the upstream call, on every other request they are untouched; every header the middleware removed or overrode (incl. Accept-Encoding) is set back to the value read before; the upstream's Accept-Encoding override is exactly the configured value; the location's configured request headers and query parameters are added next to the client's own (never set over, assigned or deleted); every wildcard of a rewrite rule becomes a capture group and each rule is matched against what the previous rules produced; configured header and query values are used as written (only a leading '$' means an environment lookup); the location's response headers are added to the upstream's header before the response (and its header clone) is built; a lifetime is recorded only for fetchers; the original next handler is restored and run once. What the upstream receives byte for byte is not decided.",
+		"Decides which request state the proxy middleware changes before the upstream call and that each change is undone on every exit after it: on a cold (fetching) request If-None-Match, If-Modified-Since, Range and If-Range are removed or known absent at the upstream call, on every other request they are untouched; every header the middleware removed or overrode (incl. Accept-Encoding) is set back to the value read before; the upstream's Accept-Encoding override is exactly the configured value and is applied whenever one is configured (also when the client sent no Accept-Encoding); the location's configured request headers and query parameters are added next to the client's own (never set over, assigned or deleted); every wildcard of a rewrite rule becomes a capture group and each rule is matched against what the previous rules produced; configured header and query values are used as written (only a leading '$' means an environment lookup); the location's response headers are added to the upstream's header before the response (and its header clone) is built; a lifetime is recorded only for fetchers; the original next handler is restored and run once. What the upstream receives byte for byte is not decided.",
 		nil, func(c *Ctx) {
 			withAnchors(c, func(a *serverAnchors) {
 				ruleProxyMiddleware(c, a, set("withheld-on-fetch", "restore", "accept-encoding-override", "location-edits-order", "lifetime-plumbing", "next-restored", "response-built", "forward-once", "upstream-error-propagates"))
@@ -423,6 +429,7 @@ func init() {
 				ruleCompletionPaths(c, a.cacheA, set("locked", "completes-on-every-path"))
 				ruleCacheMiddleware(c, a, set("ticket-discharge"))
 				ruleLookupNilChecked(c)
+				ruleProxyMiddleware(c, a, set("withheld-on-fetch", "restore"))
 				ruleSectionsApplied(c)
 				ruleLookup(c, a.cacheA, set("creation-time-kept"))
 				rulePrecompress(c, a)
